@@ -75,7 +75,21 @@ static void mode_eod(void)
 							pfx_table_init(&PFX, NULL);
 							spki_table_init(&SPKI, NULL);
 							memset(SOCK, 0, sizeof(*SOCK));
-							rtr_init(SOCK, &ENV_TR, &PFX, &SPKI, init[ini][0], init[ini][2], init[ini][1], mode, NULL, NULL, NULL);
+							if (ini == 0) {
+								rtr_init(SOCK, &ENV_TR, &PFX, &SPKI, init[ini][0], init[ini][2], init[ini][1], mode, NULL, NULL, NULL);
+							} else {
+								/*
+								 * the other way to configure the mode: initialise with another one, switch with the
+								 * public setter; an invalid value in between must leave the mode alone
+								 */
+								rtr_init(SOCK, &ENV_TR, &PFX, &SPKI, init[ini][0], init[ini][2], init[ini][1], (mode + 1) % 4, NULL, NULL,
+									 NULL);
+								rtr_set_interval_mode(SOCK, mode);
+								rtr_set_interval_mode(SOCK, (enum rtr_interval_mode)(4 + a % 3));
+								if (rtr_get_interval_mode(SOCK) != (enum rtr_interval_mode)mode)
+									v_violation("C17|eod|mode-setter", "rtr_set_interval_mode did not set the mode, or an invalid value changed it",
+										    crumb);
+							}
 							SOCK->version = ver;
 							SOCK->state = RTR_SYNC;
 							pdu_cache_response(&resp, ver, 77);
